@@ -1,4 +1,4 @@
-import DoraModel.Wait.MtxInv3
+import DoraModel.Wait.MtxInv5
 /-! # C09 — the invariants hold in every reachable state; running a trace stays reachable -/
 namespace Dora.Wait.Mtx
 
@@ -42,5 +42,18 @@ theorem Reach.run {s s' : State} (hr : Reach n s) : ∀ (es : List Event), runTr
     · rename_i s1 h1; exact ih (Reach.step hr h1) h
     · cases h
 
+
+theorem Reach.cinv (hr : Reach n s) (hnp : s.pcs.countP isPanicked = 0) : CInv s := by
+  induction hr with
+  | init =>
+    have z : ∀ p : PC → Bool, p PC.idle = false → (List.replicate n PC.idle).countP p = 0 := by
+      intro p hp; rw [List.countP_eq_zero]; intro a ha; rw [List.eq_of_mem_replicate ha, hp]; simp
+    refine ⟨?_, ?_, ?_⟩
+    · show (List.replicate n PC.idle).countP holdsWL ≤ _; rw [z holdsWL rfl]; exact Nat.zero_le _
+    · show 0 < (List.replicate n PC.idle).countP isEq2C → _; rw [z isEq2C rfl]; intro h; cases h
+    · show 0 < ([] : List Nat).length → _; intro h; cases h
+  | step _ ha ih =>
+    obtain ⟨pc, hpc, hst⟩ := accept_stepAt ha
+    exact cinv_step (ih (nopanic_back hpc hst hnp)) hpc hst hnp
 
 end Dora.Wait.Mtx
